@@ -124,6 +124,10 @@ class DAGRunConcurrentManager(DAGRunManagerLike):
         """
 
         for coro_task in coro_tasks:
+            if coro_task.cancelled():
+                # Helper tasks cancelled by the engine itself are not errors of the run
+                continue
+
             if coro_task.done() and isinstance(coro_task.exception(), BaseException):
                 return coro_task.exception()
 
